@@ -1,0 +1,22 @@
+//go:build verif
+
+package asp
+
+// Contracts for the deductive verifier in /verif (govc). Comments only; compiled solely with -tags verif.
+
+// ---------------------------------------------------------------------------------------------
+// Frozen values (C17, C18)
+//
+// Freezing is deep: the frozen list holds, position by position, the frozen version of every freezable
+// element (and the element itself otherwise), so nothing reachable from an exported value can be mutated by
+// another package. Freeze of an element is an interface call: assumed to be a function of the element.
+//@ assume func (freezable).Freeze
+//@   pure
+//@ func (pyList).Freeze
+//@   modifies nothing
+//@   invariant "range l" frozen_prefix: len(frozen) == len(l) && (forall k int :: 0 <= k && k < idx ==> \
+//@      frozen[k] == ite(dyntype(l[k], freezable), unbox(l[k], freezable).Freeze(), l[k]))
+//@   ensures is_a_frozen_list [C17]: dyntype(result, pyFrozenList)
+//@   ensures same_length [C17 C18]: len(unbox(result, pyFrozenList).pyList) == len(l)
+//@   ensures deep [C17]: forall k int :: 0 <= k && k < len(l) ==> \
+//@      unbox(result, pyFrozenList).pyList[k] == ite(dyntype(l[k], freezable), unbox(l[k], freezable).Freeze(), l[k])
